@@ -2188,12 +2188,33 @@ class StateEngine(object):
                 handle_error(state, "States.Runtime", str(e))
                 self.event_dispatcher.acknowledge(id)
 
+        def retry_timeout_before_deadline(retry_timeout):
+            """
+            A retry delay must not extend past the execution deadline (the
+            State Machine TimeoutSeconds or the configured execution_ttl),
+            because nothing else checks that deadline whilst a state waits to
+            be retried: the execution would only fail with States.Timeout when
+            the delay, which may be much longer, eventually expires. Cutting
+            the delay at the deadline lets the retried state start there, where
+            its own deadline handling fails the execution with States.Timeout.
+            """
+            if retry_timeout:
+                start_time = context["Execution"].get("StartTime")
+                execution_timestamp = parse_rfc3339_datetime(start_time).timestamp()
+                execution_timeout = ASL.get("TimeoutSeconds", self.execution_ttl)
+                remaining = (execution_timestamp + execution_timeout - time.time()) * 1000
+                remaining = remaining if remaining > 0 else 0
+                if remaining < retry_timeout:
+                    retry_timeout = remaining
+            return retry_timeout
+
         def asl_state_Task():
             """
             This function delegates to the real Task state implementation
             asl_state_Task_delegate when any retry timeout has expired.
             """
             retry_timeout = context["State"].get("RetryTimeout", 0)
+            retry_timeout = retry_timeout_before_deadline(retry_timeout)
             self.event_dispatcher.set_timeout(asl_state_Task_delegate, retry_timeout)
 
         def asl_state_Choice():
@@ -2846,6 +2867,7 @@ class StateEngine(object):
             asl_state_Parallel_delegate when any retry timeout has expired.
             """
             retry_timeout = context["State"].get("RetryTimeout", 0)
+            retry_timeout = retry_timeout_before_deadline(retry_timeout)
             self.event_dispatcher.set_timeout(asl_state_Parallel_delegate, retry_timeout)
 
         def get_start_index(context):
@@ -3162,6 +3184,7 @@ class StateEngine(object):
             else:
                 retry_timeout = 0
             
+            retry_timeout = retry_timeout_before_deadline(retry_timeout)
             self.event_dispatcher.set_timeout(asl_state_Map_delegate, retry_timeout)
 
         def asl_state_collect_results(state_type):
